@@ -56,7 +56,7 @@ inductive LStep (F : Flags) (o : Obs) (x : Act) : Ev → Act → Eff → Prop
         { x with phase := .inShell x.idx false, started := x.started ++ [x.idx] } .none
   | cmdEndBody (i : Nat) (r : Res) (cmd : Cmd) (tl : List Cmd) (hp : x.phase = .inShell i false)
       (hr : x.rest = cmd :: tl) (hc : r = .ctx → o.cancelled () = true)
-      (hs : r = .ctx ∨ r = .generic ∨ r = shellRes cmd) :
+      (hs : r = .ctx ∨ r = .generic ∨ r = shellRes cmd ∨ r = altRes cmd) :
       LStep F o x (.cmdEnd i r) (x.afterCmd cmd r) .none
   | callReleaseBody (t : Nat) (tl : List Cmd) (hp : x.phase = .body) (hr : x.rest = .call t false :: tl) :
       LStep F o x (.callRelease x.idx false)
@@ -73,7 +73,7 @@ inductive LStep (F : Flags) (o : Obs) (x : Act) : Ev → Act → Eff → Prop
       LStep F o x (.cmdStart j (if x.exitCode > 0 then some x.exitCode else none) true)
         { x with phase := .inShell j true } .none
   | cmdEndDefer (j : Nat) (r : Res) (cmd : Cmd) (hp : x.phase = .inShell j true)
-      (hd : x.def_.cmds[j]? = some cmd) (hs : r = .generic ∨ r = shellRes cmd) :
+      (hd : x.def_.cmds[j]? = some cmd) (hs : r = .generic ∨ r = shellRes cmd ∨ r = altRes cmd) :
       LStep F o x (.cmdEnd j r) x.afterDefer .none
   | callReleaseDefer (j : Nat) (tl : List Nat) (t : Nat) (hp : x.phase = .defers)
       (hs : x.stack = j :: tl) (hd : x.def_.cmds[j]? = some (.call t true)) :
@@ -138,7 +138,7 @@ theorem LStep_of_stepLocal (F : Flags) (o : Obs) (x : Act) (ev : Ev) (y : Act) (
     obtain ⟨⟨rfl, rfl⟩, rfl⟩ := hc
     exact LStep.cmdStartBody _ _ _ hph hr
   -- cmdEnd (body)
-  · rename_i r _ hij _ _ _ hr hc hs
+  · rename_i r _ hij _ cmd _ hr hc hs
     have hij' : _ = _ := Decidable.not_not.mp hij
     subst hij'
     refine LStep.cmdEndBody _ _ _ _ hph hr ?_ ?_
@@ -148,7 +148,9 @@ theorem LStep_of_stepLocal (F : Flags) (o : Obs) (x : Act) (ev : Ev) (y : Act) (
       · exact .inl h1
       · by_cases h2 : r = Res.generic
         · exact .inr (.inl h2)
-        · exact .inr (.inr (hs ⟨h1, h2⟩))
+        · by_cases h3 : r = shellRes cmd
+          · exact .inr (.inr (.inl h3))
+          · exact .inr (.inr (.inr (hs ⟨⟨h1, h2⟩, h3⟩)))
   -- callRelease (body)
   · rename_i hr hc
     simp only [Bool.and_eq_true, decide_eq_true_eq, Bool.not_eq_true'] at hc
@@ -189,14 +191,16 @@ theorem LStep_of_stepLocal (F : Flags) (o : Obs) (x : Act) (ev : Ev) (y : Act) (
       simpa [hx] using this
     · cases h
   -- cmdEnd of a deferred entry
-  · rename_i r _ hij _ _ hd hs
+  · rename_i r _ hij _ cmd hd hs
     have hij' : _ = _ := Decidable.not_not.mp hij
     subst hij'
     refine LStep.cmdEndDefer _ _ _ hph hd ?_
     simp only [Bool.and_eq_true, decide_eq_true_eq, ne_eq, not_and, Decidable.not_not] at hs
     by_cases h2 : r = Res.generic
     · exact .inl h2
-    · exact .inr (hs h2)
+    · by_cases h3 : r = shellRes cmd
+      · exact .inr (.inl h3)
+      · exact .inr (.inr (hs ⟨h2, h3⟩))
   -- callRelease of a deferred call
   · rename_i hs _ _ hd hc
     simp only [Bool.and_eq_true, decide_eq_true_eq] at hc
@@ -210,15 +214,17 @@ theorem stepLocal_of_LStep (F : Flags) (o : Obs) (x : Act) (ev : Ev) (y : Act) (
   · rename_i r _ _ _ _ _
     cases r <;> rfl
   · rename_i hs
-    intro h1 h2
-    rcases hs with h | h | h
+    intro h1 h2 h3
+    rcases hs with h | h | h | h
     · exact absurd h h1
     · exact absurd h h2
+    · exact absurd h h3
     · exact h
   · rename_i hs
-    intro h2
-    rcases hs with h | h
+    intro h2 h3
+    rcases hs with h | h | h
     · exact absurd h h2
+    · exact absurd h h3
     · exact h
 
 /-- `LStep` is exactly the graph of `stepLocal` -/
